@@ -8,6 +8,7 @@ import Jrpc.Oracle.C03
 import Jrpc.Oracle.C06
 import Jrpc.Oracle.C09
 import Jrpc.Oracle.C04
+import Jrpc.Oracle.C15
 /-! The model oracle: one line in, one line out. First token selects the sub-command. -/
 open Jrpc.Oracle
 
@@ -26,6 +27,10 @@ def dispatch (line : String) : String :=
   | "c07" :: r => C06.handleIds r
   | "c09" :: r => C09.handle r
   | "c04" :: r => C04.handle r
+  | "c15k" :: r => C15.handleCheck r
+  | "c15w" :: r => C15.handleWrap r
+  | "c16p" :: r => C15.handlePositional r
+  | "c16a" :: r => C15.handleArgs r
   | _ => "bad-op"
 
 partial def loop (h : IO.FS.Stream) (out : IO.FS.Stream) : IO Unit := do
